@@ -285,4 +285,6 @@ func runC07(p *P, r *R) {
 	// R07.8 a stream's bytes on the connection are never interleaved with another writer's event: every event is
 	// written under the session's writing flag (shared with C18 R18.1 / R18.2)
 	borrow(p, r, "C18", runC18, map[string]string{"R18.1": "R07.8", "R18.2": "R07.8"}, nil)
+	// R07.9 one id, one stream: no second stream is registered under an id that is still in the table (shared with C15 R15.8)
+	registrationOnlyWhenAbsent(p, r, "R07.9")
 }
